@@ -58,6 +58,7 @@ type SeqInfo struct {
 	WireBytes  int
 	WireWrites int
 	Reads      int
+	Reused     int
 	NonTrivial bool
 }
 
@@ -99,10 +100,27 @@ func judgeSequence(c *SeqCase) (violation string, info SeqInfo) {
 	})
 
 	written := 0
+	lastOfKind := map[int]proto.Message{}
+	anyReuse := false
+	for _, m := range c.Msgs {
+		anyReuse = anyReuse || m.Reuse
+	}
 	for i, m := range c.Msgs {
 		msg := m.Build()
+		// What the peer must see is fixed now; the object sent may be an
+		// older one overwritten in place.
 		expected[i] = msg
+		if anyReuse {
+			expected[i] = proto.Clone(msg)
+		}
 		info.MaxEncoded = max(info.MaxEncoded, proto.Size(msg))
+		if old := lastOfKind[m.Kind]; m.Reuse && old != nil {
+			if overwrite(old, msg) {
+				msg = old
+				info.Reused++
+			}
+		}
+		lastOfKind[m.Kind] = msg
 		if err := ws.encoder.Encode(msg); err != nil {
 			violation = fmt.Sprintf("encoding message %d (%v) failed: %v", i, m, err)
 			break
@@ -178,7 +196,11 @@ func drawSeqCase(rt *rapid.T) *SeqCase {
 	total := 0
 	for i := 0; i < n; i++ {
 		m := Msg{Kind: rapid.IntRange(0, kindCount-1).Draw(rt, "kind"), Seed: rapid.Uint64().Draw(rt, "msg.seed"),
-			Compressible: rapid.Bool().Draw(rt, "compressible"), Flush: rapid.Bool().Draw(rt, "flush")}
+			Compressible: rapid.Bool().Draw(rt, "compressible"), Flush: rapid.Bool().Draw(rt, "flush"), Reuse: rapid.IntRange(0, 2).Draw(rt, "reuse") == 0}
+		if i > 0 && rapid.IntRange(0, 2).Draw(rt, "same.kind") == 0 {
+			// Streams of one kind (rsync transmissions) are the norm.
+			m.Kind = c.Msgs[i-1].Kind
+		}
 		switch m.Kind {
 		case kindEmptyCompletion, kindEmptyResponse:
 		case kindTransmissionDone:
@@ -202,7 +224,7 @@ func TestC22_Sequences(t *testing.T) {
 	if ev.ReplayPath() != "" {
 		t.Skip()
 	}
-	rec := ev.New(t, "C22", "sequences", "rapid: 1..12 control-stream messages (11 kinds incl. zero-length bodies; payload sizes 0, tiny, around 32 KiB / 64 KiB / 1 MiB, up to 3 MiB; compressible or noise) through encoder -> bufio 64K -> compressor (none|deflate) -> bufio 64K with random flush points, decoded through the mirrored inbound stack over a lock-step wire with read fragmentation (whole, 1 byte, 1..64, 1..100000, 1-byte-then-whole) and reader/writer interleaving at none/all/random wire writes; "+ruleC22)
+	rec := ev.New(t, "C22", "sequences", "rapid: 1..12 control-stream messages (11 kinds incl. zero-length bodies; payload sizes 0, tiny, around 32 KiB / 64 KiB / 1 MiB, up to 3 MiB; compressible or noise; message objects freshly built or an earlier object overwritten in place and sent again) through encoder -> bufio 64K -> compressor (none|deflate) -> bufio 64K with random flush points, decoded through the mirrored inbound stack over a lock-step wire with read fragmentation (whole, 1 byte, 1..64, 1..100000, 1-byte-then-whole) and reader/writer interleaving at none/all/random wire writes; "+ruleC22)
 	ev.Check(t, rec, 500, 12000, func(rt *rapid.T) {
 		c := drawSeqCase(rt)
 		v, info := judgeSequence(c)
@@ -234,6 +256,9 @@ func TestC22_Sequences(t *testing.T) {
 		}
 		if info.Flushes >= 2 {
 			rec.Class("flushes>=2")
+		}
+		if info.Reused > 0 {
+			rec.Class("message-object-overwritten-and-resent")
 		}
 		if info.NonTrivial {
 			rec.Class("nontrivial")
